@@ -21,7 +21,7 @@ class Check:
             print('ERROR: %s\n%s' % (e.what, e.detail))
             sys.exit(2)
         try:
-            self.lean_info = lean.check_property(self.prop)
+            self.lean_info = lean.check_property(self.prop, self.tier)
         except lean.LeanBroken as e:
             self.lean_broken = e
         self.drv = Driver()
